@@ -36,6 +36,12 @@ pub enum Target {
 pub struct Step {
     pub target: Target,
     pub verbose: bool,
+    /// for stream targets: the writer accepts at most this many bytes per write call (0 = all)
+    /// and reports an Interrupted error on every `interrupt`-th call (0 = never)
+    #[serde(default)]
+    pub chunk: usize,
+    #[serde(default)]
+    pub interrupt: usize,
 }
 
 #[derive(Clone, Debug, Serialize, Deserialize)]
@@ -158,7 +164,9 @@ pub fn gen_print(t: &mut Tape) -> PrintCase {
             t.choose(&[Target::Keep, Target::Buffer, Target::Stream, Target::File, Target::Sink, Target::Keep])
         };
         let verbose = if i == 0 { st.verbose } else { !t.chance(0.3) };
-        steps.push(Step { target, verbose });
+        let chunk = t.choose(&[0usize, 0, 1, 3, 7, 64]);
+        let interrupt = t.choose(&[0usize, 0, 2, 5]);
+        steps.push(Step { target, verbose, chunk, interrupt });
     }
     let child = t.chance(0.33);
     PrintCase { ps, st, steps, child }
@@ -756,13 +764,19 @@ fn clarabel_min(a: f64, b: f64) -> f64 {
 // targets
 // ---------------------------------------------------------------------
 
+/// a stream that, like a socket or pipe, may take only part of what is offered and may be interrupted
 #[derive(Clone, Default)]
-struct SharedWriter(Arc<Mutex<Vec<u8>>>);
+struct SharedWriter(Arc<Mutex<Vec<u8>>>, usize, usize, usize);
 
 impl Write for SharedWriter {
     fn write(&mut self, buf: &[u8]) -> std::io::Result<usize> {
-        self.0.lock().unwrap().extend_from_slice(buf);
-        Ok(buf.len())
+        self.3 += 1;
+        if self.2 > 0 && self.3 % self.2 == 0 {
+            return Err(std::io::Error::new(std::io::ErrorKind::Interrupted, "interrupted"));
+        }
+        let k = if self.1 == 0 { buf.len() } else { buf.len().min(self.1) };
+        self.0.lock().unwrap().extend_from_slice(&buf[..k]);
+        Ok(k)
     }
     fn flush(&mut self) -> std::io::Result<()> {
         Ok(())
@@ -839,7 +853,10 @@ fn run_history(c: &PrintCase, reference: &str, ctx: &mut Ctx) -> CheckResult {
                     cur = Some(targets.len() - 1);
                 }
                 Target::Stream => {
-                    let w = SharedWriter::default();
+                    let w = SharedWriter(Default::default(), step.chunk, step.interrupt, 0);
+                    if step.chunk > 0 || step.interrupt > 0 {
+                        ctx.label("stream:short-writes");
+                    }
                     let h = w.0.clone();
                     solver.print_to_stream(Box::new(w));
                     targets.push((Live::Stream(h), String::new()));
